@@ -174,13 +174,18 @@ impl OverlayInode {
 pub assume_specification<T> [Option::<T>::replace] (o: &mut Option<T>, v: T) -> (r: Option<T>) ensures *final(o) == Some(v), r == *old(o);
 #[verifier::external_body] pub struct Utf8Error { _p: u8 }
 // std::str::from_utf8: the inverse of the UTF-8 encoding (str_bytes)
-#[verifier::external_body] pub fn str_from_utf8(v: &Vec<u8>) -> (r: core::result::Result<&str, Utf8Error>) ensures r is Ok ==> str_bytes(r->Ok_0@) == v@ { unimplemented!() }
+pub uninterp spec fn utf8_valid(b: Seq<u8>) -> bool;
+#[verifier::external_body] pub fn str_from_utf8(v: &Vec<u8>) -> (r: core::result::Result<&str, Utf8Error>)
+    ensures r is Ok ==> str_bytes(r->Ok_0@) == v@ && utf8_valid(v@), r is Err ==> !utf8_valid(v@) { unimplemented!() }
+// String::from_utf8_lossy: the same characters only if the input is valid UTF-8; otherwise U+FFFD replacements, i.e. OTHER bytes (the result
+// is then unconstrained here).  Cow<str> is modelled as the owned String with the same characters.
+#[verifier::external_body] pub fn string_from_utf8_lossy(v: &Vec<u8>) -> (r: String) ensures utf8_valid(v@) ==> str_bytes(r@) == v@ { unimplemented!() }
 // TempFile::new().unwrap().into_file(): a fresh, empty file (the unwrap's panic when the temporary file cannot be made is dropped: noted)
 #[verifier::external_body] pub fn vx_tempfile() -> (r: File) ensures r.data().len() == 0 && r.pos() == 0 { unimplemented!() }
 pub fn drop<T>(x: T) { }
 // CStr::to_string_lossy().to_string(): the name as a String (UTF-8 names: same bytes)
 pub uninterp spec fn lossy_str(b: Seq<u8>) -> Seq<char>;
-#[verifier::external_body] pub fn cstr_to_string_lossy(c: &CStr) -> (r: String) ensures r@ == lossy_str(c@) { unimplemented!() }
+#[verifier::external_body] pub fn cstr_to_string_lossy(c: &CStr) -> (r: String) ensures r@ == lossy_str(c@), utf8_valid(c@) ==> str_bytes(r@) == c@ { unimplemented!() }
 '''
 
 FSM = r'''
@@ -436,7 +441,7 @@ def unit(root='/repo'):
     items.append(Copy(OVL, r'struct HandleData\b'))
     items.append(Raw(FSM + CAPS))
 
-    cud = tok(Fn(OVL, OI, 'create_upper_dir', props=['C11'], canary=True, sig_subst=SELF_ARC, body_resub=[OTHERSTR],
+    cud = tok(Fn(OVL, OI, 'create_upper_dir', props=['C11'], gtag_props={'cap': ['C11']}, canary=True, sig_subst=SELF_ARC, body_resub=[OTHERSTR],
                  requires=UP_COMMON_REQ + ['old(vxh).nodes.contains_key(self.nid())', '!old(vxh).nodes[self.nid()].wh', 'mode_umask is None', 'grant_up_mkdir(*old(vxh), *ctx) // [C11.create_upper_dir.cap] directories made on the way up: the node\'s own name, its own mode, umask 0'],
                  ensures=UP_COMMON_ENS + [
                      'final(vxh).up_frame(*old(vxh), self.nid()) // [C11.create_upper_dir.frame] only this node and ancestors that were not in the upper layer change',
@@ -489,12 +494,13 @@ def unit(root='/repo'):
         }'''
     SNAP = 'let ghost h1 = *vxh; proof { assert(parent_node.nid() != node.nid()); assert(h1.nodes[node.nid()] == old(vxh).nodes[node.nid()]); assert(h1.up_frame(*old(vxh), parent_node.nid()) || h1 == *old(vxh)); assert(h1.up_frame(*old(vxh), node.nid())); }'
     LOOPH = '*vxh == h1, h1.inv(), h1.up_frame(*old(vxh), node.nid()), h1.nodes[node.nid()] == old(vxh).nodes[node.nid()],'
-    csu = tok(Fn(OVL, OF, 'copy_symlink_up', props=['C11'], canary=True, body_resub=[OTHERSTR, (r'std::str::from_utf8\(&path\)', 'str_from_utf8(&path)', 'std::str::from_utf8 (model: inverse of the UTF-8 encoding)')],
+    csu = tok(Fn(OVL, OF, 'copy_symlink_up', props=['C11'], gtag_props={'cap': ['C11']}, canary=True, body_resub=[OTHERSTR, (r'\bstd::str::from_utf8\(', 'str_from_utf8(', 'every: std::str::from_utf8 -> model (Ok(s): s encodes to exactly the input bytes; Err iff the input is not UTF-8)'),
+                             (r'\bString::from_utf8_lossy\(', 'string_from_utf8_lossy(', 'every: String::from_utf8_lossy -> model (same bytes only for valid UTF-8 input; Cow<str> as String)')],
                  requires=COPY_REQ + ['grant_up_symlink(*old(vxh), *ctx, *node) // [C11.copy_symlink_up.cap] the upper link: the node\'s name, the lower link\'s target'],
                  ensures=COPY_ENS + [NODE_AFTER % 'copy_symlink_up'] + REC,
                  splices=[('let mut new_upper_real = None;', 'before', SNAP), ('Ok(Arc::clone(&node))\n    }', 'before', FRAME_END)]))
     csu.body_hooks = [PARENT, R.r29_inline_upper_closure(0)]
-    cru = tok(Fn(OVL, OF, 'copy_regfile_up', props=['C11'], canary=True, attrs=['#[verifier::exec_allows_no_decreases_clause]'],
+    cru = tok(Fn(OVL, OF, 'copy_regfile_up', props=['C11'], gtag_props={'cap': ['C11']}, canary=True, attrs=['#[verifier::exec_allows_no_decreases_clause]'],
                  body_resub=[OTHERSTR, (r'TempFile::new\(\)\.unwrap\(\)\.into_file\(\)', 'vx_tempfile()', 'a fresh empty temporary file (the unwrap\'s panic on failure is dropped)')],
                  requires=COPY_REQ + ['grant_up_create(*old(vxh), *ctx, *node) // [C11.copy_regfile_up.create_cap] the upper file: the node\'s name, the mode the overlay reports for the node, no umask',
                                       'grant_up_write(*old(vxh), *node) // [C11.copy_regfile_up.write_cap] every write carries the lower file\'s bytes from its own offset on'],
@@ -515,7 +521,7 @@ def unit(root='/repo'):
                           ('offset += ret;\n        }\n        // close handles', 'replace', 'proof { assert(content.subrange(0, offset as int) + content.subrange(offset as int, offset + ret) =~= content.subrange(0, offset + ret)); }\noffset += ret;\n        }\n        proof { assert(content.subrange(0, content.len() as int) =~= content); }'),
                           ('Ok(Arc::clone(&node))\n    }', 'before', FRAME_END)]))
     cru.body_hooks = [PARENT, R.r29_inline_upper_closure(0)]
-    cnu = tok(Fn(OVL, OF, 'copy_node_up', props=['C11'], canary=True,
+    cnu = tok(Fn(OVL, OF, 'copy_node_up', props=['C11'], gtag_props={'cap': ['C11']}, canary=True,
                  requires=COPY_REQ + ['grant_up_symlink(*old(vxh), *ctx, *node)', 'grant_up_create(*old(vxh), *ctx, *node)', 'grant_up_write(*old(vxh), *node)'],
                  ensures=COPY_ENS + REC))
     items.append(Group('impl OverlayFs {', [csu, cru, cnu]))
@@ -540,7 +546,7 @@ def unit(root='/repo'):
     mk.locate = R.presub_locate(OF, 'do_mkdir', [('format!("{}/{}", pnode.path, name)', 'path_join(pnode.path.as_str(), name)', 'the child path as a model call (R7 would erase it)')])
     mk.body_hooks = [R.r29_inline_upper_closure(0)]
     rm = tok(Fn(OVL, OF, 'do_rm', props=['C10'], canary=True,
-                requires=OP_REQ + ['str_bytes(lossy_str(name@)) == name@    // the name is UTF-8 (to_string_lossy changes nothing)'],
+                requires=OP_REQ + ['utf8_valid(name@)    // stated assumption of do_rm only: the request name is valid UTF-8 (to_string_lossy then changes nothing); a name that is not gets its whiteout under another name - not decided here'],
                 ensures=UP_COMMON_ENS + [NO_UPPER % 'do_rm']
                     + ([
                     '''({ let nd = self.s_node(parent, lossy_str(name@)); let pn = self.s_node(parent, Seq::<char>::empty());
